@@ -88,6 +88,16 @@ CHECKS["C20"] = dict(
     note="Trusted: TLC, exact dyadic scaling (checked). Pixels are not judged.",
     ref="5/C20", technique="TLA+ transcription + property predicates, TLC, trace validation of recorded layouts")
 
+CHECKS["C04"] = dict(
+    text="Functor.tla defines the unique strict monoidal/rigid functor with given images on generators (ApplyTy with "
+         "winding-aware adjoints, nested cups/caps, swap diagrams, whiskered layers); configurations (object and box "
+         "images) are part of the initial state. TLC proves typing and the functoriality equations on the model and "
+         "finds the one law that fails (dagger of swaps with multi-wire images). The real rigid.Functor (dict and "
+         "callable) is run on dumped (configuration, diagram) pairs; TLC judges image type, well-typedness, equality "
+         "with the specified image, and 12 law instances evaluated with python == on code values (J04).",
+    note="Trusted: TLC, projection. One known finding (see known_findings.json).",
+    ref="5/C04", technique="TLA+ spec with configurations in Init + TLC, replay, trace validation")
+
 NOT_YET = {}
 
 
